@@ -338,3 +338,53 @@ def every_arriving_datagram_is_queued_at_the_tail(n: int, data: bytes, port: int
     if n == 0:
         ensures("first-arrival-becomes-the-head", p.queue.head[0] is data)
     cover("arrives-behind-many", n > 100)
+
+
+# ------------------------------------------------------- the inline waiter (wait_for_response) is a consumer too
+from geckolib.config import GeckoConfig
+
+
+class Waiter(GeckoVersionProtocolHandler):
+    async def async_handle(self, received_bytes, sender):
+        Mon.handled.append((received_bytes, sender))
+
+
+@loop_contract("geckolib.driver.udp_protocol_handler:GeckoUdpProtocolHandler.wait_for_response", 0, header="while True")
+class waiter_loop:
+    @staticmethod
+    def havoc(L):
+        set_clock(fresh_time("now"))
+        arbitrary_queue(L.protocol.queue)
+        Mon.log = []
+        Mon.handled = []
+        Mon.before = list(L.protocol.queue._queue)
+        Mon.was_marked = L.protocol.queue._marked
+
+    @staticmethod
+    def inv(L):
+        return both(queue_inv(L.protocol.queue), len(Mon.handled) == 0, len(pops(Mon.log)) == 0)
+
+
+@harness(prop="C07", target="geckolib.driver.udp_protocol_handler:GeckoUdpProtocolHandler.wait_for_response", loops=["waiter_loop"],
+         name="waiter_takes_exactly_the_head_it_accepts_and_clears_the_mark")
+async def waiter_takes_exactly_the_head_it_accepts_and_clears_the_mark():
+    """a request waiting for its reply removes a datagram only through the queue's own pop (which clears the mark the
+    unhandled consumer may have set on it), only when it accepts it, and leaves the rest of the queue as it was"""
+    q = MonQueue()
+    Mon.q = q
+    Mon.log = []
+    Mon.handled = []
+    Mon.before = []
+    Mon.was_marked = False
+    set_suspend_hook(others_act)
+    h = Waiter(content=b"AVERS\x01", timeout=GeckoConfig.PROTOCOL_TIMEOUT_IN_SECONDS, parms=SENDER)
+    got = await h.wait_for_response(Proto(q))
+    if got:
+        ensures("took-exactly-the-head-it-looked-at", both(len(Mon.before) > 0, len(Mon.handled) == 1, Mon.handled[0][0] is Mon.before[0][0]))
+        ensures("it-accepts-what-it-took", h.can_handle(Mon.handled[0][0], Mon.handled[0][1]))
+        ensures("rest-of-the-queue-untouched", list(q._queue) == Mon.before[1:])
+        ensures("removal-clears-the-mark", not q.is_marked)
+    else:
+        ensures("gave-up-without-consuming-anything", both(len(Mon.handled) == 0, list(q._queue) == Mon.before))
+    ensures("queue-invariant-holds-when-the-waiter-returns", queue_inv(q))
+    cover("reply-was-marked-by-the-unhandled-consumer", both(got, Mon.was_marked))
